@@ -45,7 +45,7 @@ def describe(tier):
         "rule": "for every data array per dimension (rows N, E categories; one-axis dimensions and dimensions with one extra axis (N,2), (N,3)) and every call of C03's sub-space (aggregate x policy x weights x fact): the base cube uses "
         "harness-built dimensions with common 0 and explicit shape E+2; then for EVERY combination (v_1..v_D) in (0..E+1)^D each dimension is replaced by a rebuilt "
         "copy re-encoded with the library's shift_common(v_d) (v = E, E+1 never occur in the data) and the result must equal the base (missing cells exactly, "
-        "values within 1e-9 x grand total); then every dimension is re-normalised with shift_common() and compared again; every combination is also reached through the other door, iindex.from_array(array, common=v); a SCALE family re-expresses two dimensions of 700 / 20001 (70001) rows through all 25 pairs of common values (present, rare, absent); the unweighted count is also taken with the cube shape INFERRED from the re-expressed dimensions (must evaluate, cover the categories present, agree on the shared cells); and ONE set of index objects is evaluated, re-expressed in place through the whole list of common-value combinations and evaluated after each step (anything an index memoises must follow its common value). shift_common must leave the dense "
+        "values within 1e-9 x grand total); then every dimension is re-normalised with shift_common() and compared again; every combination is also reached through the other door, iindex.from_array(array, common=v); a SCALE family re-expresses two dimensions of 700 / 20001 (70001) rows through all 25 pairs of common values (present, rare, absent); the unweighted count is also taken with the cube shape INFERRED from the re-expressed dimensions (must evaluate, cover the categories present, agree on the shared cells); and ONE set of index objects is evaluated, re-expressed in place through the whole list of common-value combinations and evaluated after each step - by a new cube and by ONE cube object built before the first change (anything an index memoises must follow its common value). shift_common must leave the dense "
         "content unchanged. evaluations = re-encoded cube evaluations. Non-trivial: some dimension has >=2 distinct values and the combination differs from "
         "the base encoding. Distinct = distinct (data, call, combination).",
         "bounds": {"sets": SETS[tier]},
@@ -207,6 +207,14 @@ def check_data(datas, E, N, cfg, acc, only_call=None, only_combo=None):
             live = [M.build_index(d, 0) for d in denses]
             try:
                 ev(live)
+                # ... and ONE cube object built over them before any change: a cube holds its dimensions, not a snapshot of them
+                held = ccube(live, interacting_shape=shape)
+
+                def ev_held():
+                    f2, _, _, _, w2, _, _ = c03.realise(N, ws, fs)
+                    return Q.normalise(Q.call_cube(held, agg, f2, w2, ignore, Q.NaN), Q.NaN)
+
+                ev_held()
                 for combo in enc:
                     for ix, v in zip(live, combo):
                         ix.shift_common(v)
@@ -214,6 +222,10 @@ def check_data(datas, E, N, cfg, acc, only_call=None, only_combo=None):
                     msg = same(ev(live), base, grand)
                     if msg:
                         acc.violation("ccube:%s:in-place:differs" % agg, case, msg)
+                        break
+                    msg = same(ev_held(), base, grand)
+                    if msg:
+                        acc.violation("ccube:%s:in-place-same-cube:differs" % agg, dict(case, stage="in-place"), "the cube object built before the dimensions were re-expressed: " + msg)
                         break
                     acc.count("in_place_evals")
             except Exception as e:  # noqa
